@@ -125,11 +125,11 @@ def run(ctx):
         nsim, tw = 6, 4
     else:
         runs = [("edges/all-reads 4 keys x 2 values", "OrderedMap_te.cfg", 4, "edge"),
-                ("edges/mutations 7 keys", "OrderedMap_tm.cfg", 7, "edge"),
+                ("edges/mutations 8 keys", "OrderedMap_tm.cfg", 8, "edge"),
                 ("exhaustive 12 keys", "OrderedMap_t.cfg", None, "check"),
                 ("exhaustive 7 keys x 2 values", "OrderedMap_t2.cfg", None, "check"),
                 ("simulation 40 keys x 70 steps", "OrderedMap_sim.cfg", 40, "sim")]
-        nsim, tw = 150, 6
+        nsim, tw = 300, 6
 
     def tlc(run_):
         label, cfg, nk, mode = run_
